@@ -70,7 +70,7 @@ type simEntry struct {
 
 // stratumOf derives the stratum from the history itself: "clean" histories never contain a trigger of a recorded
 // finding: (P1) no Save produces a whole-state content that an earlier Save produced; (P2) no prune runs while a
-// height saved on an abandoned branch has not been saved again on the current branch.
+// height at or below its bound (curHeight-PruneHeight) was saved on an abandoned branch and not saved again.
 func stratumOf(h *History) string {
 	type st struct {
 		H     int64
@@ -115,7 +115,7 @@ func stratumOf(h *History) string {
 			}
 			chain = append(chain, st{H, saved, m})
 			tipH = H
-			if saved && autoPrune(h.Cfg.PH, H) && len(stale) > 0 {
+			if saved && autoPrune(h.Cfg.PH, H) && staleEligible(stale, H-int64(h.Cfg.PH)) {
 				trigger = true
 			}
 		case "rollback":
@@ -132,7 +132,11 @@ func stratumOf(h *History) string {
 				tipH = chain[len(chain)-1].H
 			}
 		case "prune":
-			if len(stale) > 0 {
+			cur := tipH - op.D
+			if len(chain) > 0 && cur < chain[0].H {
+				cur = tipH
+			}
+			if staleEligible(stale, cur-int64(h.Cfg.PH)) {
 				trigger = true
 			}
 		}
@@ -141,6 +145,17 @@ func stratumOf(h *History) string {
 		return "trigger"
 	}
 	return "clean"
+}
+
+// staleEligible: some height saved on an abandoned branch and not saved again lies at or below the prune bound
+// (only such index entries are looked at by a prune run).
+func staleEligible(stale map[int64]bool, bound int64) bool {
+	for h := range stale {
+		if h <= bound {
+			return true
+		}
+	}
+	return false
 }
 
 func contentHash(m map[string]string) string {
@@ -808,6 +823,9 @@ func runHistory(h *History, dir string) (res HistResult) {
 			}
 		case "rollback":
 			sync(i)
+			if len(r.viols) > 0 {
+				break
+			}
 			n := int(op.D)
 			dropped := 0
 			for n > 0 && len(r.chain) > 1 && r.chain[len(r.chain)-1].H > r.floor {
@@ -824,6 +842,9 @@ func runHistory(h *History, dir string) (res HistResult) {
 			}
 		case "prune":
 			sync(i)
+			if len(r.viols) > 0 {
+				break
+			}
 			if len(r.chain) == 0 {
 				continue
 			}
@@ -850,6 +871,9 @@ func runHistory(h *History, dir string) (res HistResult) {
 			r.afterPrune(i, "after PruningTree")
 		case "reopen":
 			sync(i)
+			if len(r.viols) > 0 {
+				break
+			}
 			r.closeStore()
 			r.open()
 			r.cnt["reopens"]++
@@ -1246,7 +1270,11 @@ func run(c *lib.Ctx) {
 		if large && i%2 == 1 {
 			mode = "trigger"
 		}
-		h := genHistory(c.CaseRng("hist", idx), idx, mode, large)
+		rng := c.CaseRng("hist", idx)
+		h := genHistory(rng.Fork(), idx, mode, large)
+		for try := 0; try < 8 && stratumOf(&h) != mode; try++ {
+			h = genHistory(rng.Fork(), idx, mode, large)
+		}
 		jobs = append(jobs, job{h, stratumOf(&h)})
 		idx++
 	}
